@@ -1,8 +1,8 @@
 (* C11 — Accept upgrades only valid WebSocket requests and answers them correctly.
    Statements only; proofs in Proofs/HandshakeP.v, Proofs/Base64P.v, Proofs/Sha1P.v. *)
-From Coq Require Import List NArith Bool.
-From WS Require Import Base.Words Gen.Consts Model.Proto Model.Fold Model.Base64 Model.Sha1 Model.Origin Model.Handshake
-  Proofs.Base64P Proofs.Sha1P Proofs.HandshakeP.
+From Coq Require Import List NArith ZArith Bool.
+From WS Require Import Base.Words Gen.Consts Gen.AcceptCode Model.Proto Model.Fold Model.Base64 Model.Sha1 Model.Origin Model.Handshake
+  Proofs.Base64P Proofs.Sha1P Proofs.HandshakeP Proofs.GenTieP.
 Import ListNotations.
 
 (* Accept answers 101 (and takes the connection over) exactly for the requests the property describes: GET, HTTP/1.1 or
@@ -41,3 +41,15 @@ Print Assumptions C11_b64_roundtrip.
 (* the RFC 6455 section 1.3 example: key dGhlIHNhbXBsZSBub25jZQ== gives s3pPLMBiTxaQ9kYGzzhZRbK+xOo= *)
 Example C11_rfc_vector : b64_encode (sha1 (sha1_rfc6455_key ++ sha1_rfc6455_guid)) = sha1_rfc6455_accept.
 Proof. exact sha1_rfc6455. Qed.
+
+(* tie to the source by translation: the model's request check answers what the chain of checks of verifyClientRequest
+   (accept.go, regenerated into Gen/AcceptCode.v on every run) answers — the same checks in the same order with the same
+   HTTP status each.  A reordered, dropped or re-coded check in the source breaks this theorem. *)
+Theorem C11_checks_are_source : forall r,
+  Z.of_nat (verify_client_request r) =
+  gen_verify_request (Nat.ltb 1 (q_major r) || (Nat.eqb (q_major r) 1 && Nat.leb 1 (q_minor r)))
+    (hs_has_token (q_hdrs r) s_Connection s_Upgrade) (hs_has_token (q_hdrs r) s_Upgrade s_websocket)
+    (hs_beq (q_method r) s_GET) (hs_beq (hs_get (q_hdrs r) s_SecVersion) s_13)
+    (Z.of_nat (length (hs_values (q_hdrs r) s_SecKey))) (req_key_decodes r) (req_key_len r).
+Proof. exact verify_client_request_is_source. Qed.
+Print Assumptions C11_checks_are_source.
